@@ -145,7 +145,14 @@ class Source:
                 else:
                     out.append(("builtins", b.id))
             elif isinstance(b, ast.Subscript) and isinstance(b.value, ast.Name):
-                out.append(("typing", b.value.id))
+                nm = b.value.id     # Generic base: Base[Params, Result]
+                if nm in mod.imports:
+                    m, n = mod.imports[nm]
+                    out.append((m, n or nm))
+                elif mod.top(nm) is not None:
+                    out.append((modname, nm))
+                else:
+                    out.append(("typing", nm))
         return out
 
     def find_method(self, modname: str, clsname: str, meth: str):
